@@ -53,6 +53,9 @@ def subscript(ex, v, sl, fr, node):
             r = smt.oarr_col(v.t, z3.IntVal(sl.elts[1].value))
             ex.assume(smt.oarr_rows(r) >= 0)
             return Val(Ty("oarr"), r)
+    if v.ty.kind == "g" and not isinstance(sl, (ast.Slice, ast.Tuple)):
+        j = ex.coerce(ex.ev(sl, fr), "int")
+        return Val(Ty("fl"), smt.coord(v.t, j.t))          # one coordinate of a row
     raise Unsupported(f"array subscript on {v.ty}")
 
 
@@ -61,6 +64,8 @@ def assign_subscript(ex, cont, tg, v, fr):
 
 
 def getattr(ex, v, attr, fr, node):
+    if v.ty.kind == "g" and attr == "copy":
+        return Val(Ty("fn"), name="g.copy", bound=v)       # genomes are values in the row view: a copy is the same value
     raise Unsupported(f"array attribute {attr}")
 
 
@@ -90,6 +95,10 @@ def length(ex, v):
 
 
 def rows_as_list(ex, v, fr):
+    if v.ty.kind == "arr" and v.ty.cls == "B":
+        from .models import vlist
+        j = z3.Int("j")
+        return vlist(Ty("g"), ex.hmap("$alen", INT)[v.t], [z3.Lambda([j], smt.barr_row(v.t, j))])     # rows [lower_j, upper_j]
     if v.ty.kind == "oarr":
         from .models import vlist
         j = z3.Int("j")
